@@ -1,25 +1,25 @@
 import HappyProofs.C11.CommitMono
 import HappyProofs.C11.ApplyAgree
-/-! Leader Completeness and State-Machine Safety: stated in full; what is proved is the commit rule
-    they rest on and the reduction of `state_machine_safety` to agreement of committed entries
-    (`ApplyAgree.lean`).  The missing piece is the inductive argument "an entry acknowledged by a
-    quorum in term T is in the log of every candidate that wins a later term" (it needs the
-    invariant `match_sound`: `match_index[f] ≥ N` at a leader of term T implies that f's log agreed
-    with the leader's up to N when f acknowledged in term T — true only with repairs D2 and D3). -/
+/-! Leader Completeness, State-Machine Safety and Commit Monotonicity: the full statements (proved in
+    `Safety.lean`, instantiated in `Props.lean` as `*_full_holds`), and the commit rule they rest on.
+    The inductive argument "an entry acknowledged by a quorum in term T is in the log of every
+    candidate that wins a later term" is `lc_main` (HInv.lean); the invariant `match_sound`
+    (`match_index[f] ≥ N` at a leader of term T implies that f's log agreed with the leader's up to N
+    when f acknowledged in term T — true only with repairs D2 and D3) is clause `n_ms` of `HInv`. -/
 namespace HappyModel.C11
 open Spec
 
-/-- FULL STATEMENT (not proved): committed entries are in the log of every later leader -/
+/-- FULL STATEMENT (`leader_completeness_full_holds`): committed entries are in the log of every later leader -/
 def leader_completeness_full : Prop :=
   ∀ (n : Nat) (as : List Act), leaderCompleteOk (frames Variant.repaired n as) = true
 
-/-- FULL STATEMENT (not proved): entries shown committed at one index never differ, hence no two
+/-- FULL STATEMENT (`state_machine_safety_full_holds`): entries shown committed at one index never differ, hence no two
     nodes apply different commands at one index -/
 def state_machine_safety_full : Prop :=
   ∀ (n : Nat) (as : List Act),
     commitAgreeOk (frames Variant.repaired n as) = true ∧ applyAgreeOk (frames Variant.repaired n as) = true
 
-/-- FULL STATEMENT (not proved): no node's commit index ever decreases -/
+/-- FULL STATEMENT (`commit_monotone_full_holds`): no node's commit index ever decreases -/
 def commit_monotone_full : Prop :=
   ∀ (n : Nat) (as : List Act), commitMonotoneOk (frames Variant.repaired n as) = true
 
@@ -41,7 +41,7 @@ theorem findCommit_spec (n : Nat) (x : Node) (me : Nat) : ∀ (k N : Nat), findC
       · obtain ⟨h1, h2⟩ := ih N h
         exact ⟨by omega, h2⟩
 
-/-- LEADER COMPLETENESS (partial: the commit rule).  A leader moves its commit index only to an index
+/-- THE COMMIT RULE (the earlier partial form of Leader Completeness; used by the full proof).  A leader moves its commit index only to an index
     `N` that holds an entry of its *current* term and that a quorum (itself and the peers with
     `match_index ≥ N`) is recorded to hold; and then the new commit index is exactly `N`. -/
 theorem leader_completeness_partial (n : Nat) (x : Node) (me : Nat) (hlen : x.commit ≤ x.log.length)
